@@ -19,6 +19,23 @@ CLAIMED = {
             'enumerated architecture set; any exception is a violation when the reference set is non-empty. Finds '
             'counterexamples within the size bounds, establishes nothing beyond them.',
             'Trusted: vf/refsel.py, vf/refconn.py (self-tested against docs/theory.md); spec bounds of DESIGN.md 3.'),
+    'C02': ('property-based testing: Hypothesis-generated selection graphs, all choice orders explored as a decision-set '
+            'DAG through the DSG API, oracle = closure predicate on the instance + set equality with the independent '
+            'R-SEL enumeration + same decisions => same state',
+            'Generated-input search over graphs and over all orders of taking active choices (bounded to 3000/30000 '
+            'states per graph); counterexamples are shrunk by Hypothesis and saved as replay files.',
+            'Trusted: vf/refsel.py closure model (self-tested on the docs example); graphs <= 12 nodes.'),
+    'C06': ('property-based testing: generated selection graphs with 1-3 incompatibility pairs x all choice orders, '
+            'oracle = independent R-SEL enumeration (both directions: nothing inadmissible kept, nothing admissible lost)',
+            'Generated-input search; the no-over-pruning direction is decided by set equality with the reference '
+            'enumeration of all option assignments.',
+            'Trusted: vf/refsel.py; reading of "never offered": no feasible final result contains such an option (the '
+            'stronger per-state reading is measured as a class label only, see DESIGN.md).'),
+    'C09': ('bounded-exhaustive enumeration (18-letter connector alphabet, shapes up to 2x2, all existence patterns) + '
+            'Hypothesis-generated settings up to 3x3 with exclusions/overrides, oracle = brute-force R-CONN set, '
+            'validity predicate over the limit box, differential count vs generate',
+            'Exhaustive over the stated core, random beyond; every pattern is compared as a set against brute force.',
+            'Trusted: vf/refconn.py (per-pair limit rule as documented on get_max_conn_parallel).'),
 }
 
 NOT_YET = 'check not built yet in this session (see DESIGN.md 6 for the plan); will be claimed once it is registered'
